@@ -482,6 +482,12 @@ func (e *Engine) contractFor(name string) *FuncContract {
 	if fc, ok := e.Contracts[name]; ok {
 		return fc
 	}
+	// wildcard over the methods of an interface / type: "litefs.OS.*"
+	if k := strings.LastIndex(name, "."); k > 0 {
+		if fc, ok := e.Contracts[name[:k]+".*"]; ok {
+			return fc
+		}
+	}
 	return nil
 }
 
